@@ -21,11 +21,10 @@ def run(ctx):
     rnd = random.Random(ctx.seed)
     quick = ctx.tier == "quick"
     dev = ctx.known_devs()
-    progs = F.c13_chains(ctx.tier, rnd, excs=("ZeroDivisionError", "RecursionError") if quick else ("ZeroDivisionError", "RecursionError", "KeyError", "KeyboardInterrupt"))
-    # (thorough: 3856 programs with several thousand behaviours each -- more records than the machine can hold at once, and
-    # hours of TLC: 400 of them are drawn, in batches of 100 so that only the records of one batch are in memory)
-    if not quick:
-        progs = rnd.sample(progs, 400)
+    # (thorough: the chain programs of the quick tier's size with four exception classes and three permutations -- the
+    # thorough-sized programs have thousands of behaviours each: single shards printed more than the output cap and, before
+    # there was a cap, sixteen of them exhausted the memory)
+    progs = F.c13_chains("quick", rnd, excs=("ZeroDivisionError", "RecursionError") if quick else ("ZeroDivisionError", "RecursionError", "KeyError", "KeyboardInterrupt"))
     step = len(progs) if quick else 100
     for b in range(0, len(progs), step):
         agg = run_family("C13chain", progs[b:b + step], NAMES, dev=dev, invariants=INVS, perms=(0, 1) if quick else (0, 1, 2), timeout=1800)
